@@ -57,7 +57,17 @@ func NewVue(templateFS fs.FS) *Vue {
 		componentMap:  make(map[string]string),
 	}
 	v.funcMap = v.DefaultFuncMap()
+	v.syncFunctionNames()
 	return v
+}
+
+// syncFunctionNames lets the expression evaluator know the registered function names.
+func (v *Vue) syncFunctionNames() {
+	names := make([]string, 0, len(v.funcMap))
+	for name := range v.funcMap {
+		names = append(names, name)
+	}
+	v.exprEval.SetFunctionNames(names)
 }
 
 // Funcs merges custom template functions into the existing funcmap, overwriting any existing keys.
@@ -66,6 +76,7 @@ func (v *Vue) Funcs(funcMap FuncMap) *Vue {
 	for k, fn := range funcMap {
 		v.funcMap[k] = fn
 	}
+	v.syncFunctionNames()
 	return v
 }
 
